@@ -23,7 +23,11 @@ def main():
     head = sh("git rev-parse HEAD", "/repo").stdout.strip()
     sh("git worktree remove --force %s" % WT, "/repo")
     assert sh("git worktree add -q --detach %s %s" % (WT, head), "/repo").returncode == 0
-    stale, ported, conflicts = [], [], []
+    stale, ported, conflicts, refreshed = [], [], [], []
+    sys.path.insert(0, VERIF)
+    from gverif import patchutil
+    from gverif.index import Repo
+    repo_idx = Repo("/repo")
     try:
         for kind in ("seeded", "benign"):
             for name in sorted(os.listdir(os.path.join(VERIF, kind))):
@@ -32,6 +36,17 @@ def main():
                     continue
                 sh("git checkout -q --detach %s && git reset -q --hard && git clean -fdq" % head)
                 if sh("git apply --check %s" % p).returncode == 0:
+                    # applies for git (possibly with line offsets); gverif's in-memory patcher wants exact positions
+                    try:
+                        okov = patchutil.overlay(repo_idx, open(p, encoding="utf-8").read()) is not None
+                    except Exception:
+                        okov = False
+                    if not okov:
+                        sh("git apply %s" % p)
+                        d = sh("git diff HEAD").stdout
+                        refreshed.append((kind, name))
+                        if write and d:
+                            open(p, "w").write(d)
                     continue
                 stale.append((kind, name))
                 sh("git checkout -q --detach %s && git reset -q --hard" % old)
@@ -53,6 +68,8 @@ def main():
     finally:
         sh("git worktree remove --force %s" % WT, "/repo")
     print("stale: %d, re-based cleanly: %d, left: %d" % (len(stale), len(ported), len(conflicts)))
+    for k, n in refreshed:
+        print("  refreshed (line offsets) %s/%s" % (k, n))
     for k, n in ported:
         print("  ported   %s/%s" % (k, n))
     for k, n, why in conflicts:
